@@ -108,7 +108,7 @@ func c18LoadTable(t *testing.T) []c18Blk {
 // message can create a bank balance in those denoms (a fixture-minted one makes the distribution wrapper panic)
 var c18Denoms = []string{USDC, ATOM, ELYS, "uodd", "amm/pool/1", "amm/pool/2", "stablestake/share", "ibc/27394FB092D2ECCD56123C74F36E4C1F926001CEADA9CA97EA622B25F41E5EB2"}
 
-const c18NParam = 22
+const c18NParam = 24
 
 func c18Gen(r *Rng, id int) lHist {
 	base := lGen(r, id)
@@ -712,6 +712,11 @@ func (c *c18Run) param(i int) {
 		p.FixedFundingRate = dec("0")
 		p.BorrowInterestRateMin = dec("0")
 		del(&perptypes.MsgUpdateParams{Authority: gov, Params: &p})
+	case 22: // few vesting slots per account (validation only asks for >= 0): the ICS provider address fills them up
+		del(&ctypes.MsgUpdateVestingInfo{Authority: gov, BaseDenom: "ueden", VestingDenom: ELYS, NumBlocks: 1000000, VestNowFactor: 90, NumMaxVestings: 2})
+	case 23: // the provider's rewards are vested at every five-minute epoch
+		es.ProviderVestingEpochIdentifier = "five_minutes"
+		del(&estypes.MsgUpdateParams{Authority: gov, Params: es})
 	}
 }
 
@@ -789,6 +794,9 @@ func c18RunHistory(t *testing.T, col *Collector, table []c18Blk, h lHist) {
 
 func c18Corpus() []lHist {
 	return []lHist{
+		{Ops: []lOp{ // (fixed) the ICS provider account runs out of vesting slots: the wrapped ErrExceedMaxVestings was compared with == and the epochs begin blocker panicked
+			{Op: "f_param", Idx: 22}, {Op: "f_param", Idx: 23}, {Op: "f_inflation", N: 1000, Idx: 1}, {Op: "blocks", N: 2, DT: 5},
+			{Op: "f_gap", N: 3, DT: 301}, {Op: "f_gap", N: 3, DT: 301}, {Op: "blocks", N: 2, DT: 301}}},
 		{Ops: []lOp{ // (fixed) an Eden price that rounds to zero made masterchef return "invalid eden price" to baseapp
 			{Op: "f_lopsided", Dir: 0}, {Op: "blocks", N: 2, DT: 5}}},
 		{Ops: []lOp{ // stakers' portion 0: CollectDEXRevenue subtracts the provider portion from an empty coin set
